@@ -16,7 +16,7 @@ from vlib import OkV
 from ppci import ir
 
 EXTRA_KINDS = ('triangle', 'emptychain', 'tailself', 'blobmix', 'constjump', 'addzero', 'twins', 'globcall',
-               'globwrite')
+               'globwrite', 'alias', 'pun')
 FEATS_QUICK = irgen.SAFE_FEATURES + ('copyblob', 'extern') + EXTRA_KINDS
 
 
@@ -176,6 +176,54 @@ class FnGen2(irgen.FnGen):
             y1 = self.emit(ir.Binop(y, '+', one, self.nm('tw'), t))
             env.setdefault(t, []).append(self.emit(ir.Binop(x, '^', y1, self.nm('twx'), t)))
             self.observe(env, t)
+        elif kind in ('alias', 'pun'):
+            size = t.bits // 8
+            bases = [(p, s) for p, s in self.allocs if s >= 2 * size]
+            bases += [(g, g.amount) for g in self.mg.gvars if g.amount >= 2 * size]
+            if not bases:
+                a = self.emit(ir.Alloc(self.nm('alloc'), 16, 8))
+                bases = [(self.emit(ir.AddressOf(a, self.nm('addr'))), 16)]
+                self.allocs.append(bases[0])
+            p, _ = rng.choice(bases)
+            if kind == 'alias':
+                # q is another IR value than p and equals p at run time when the selector is even
+                sel_t = rng.choice(self.types)
+                sel = self.get(env, sel_t)
+                bit = self.emit(ir.Binop(sel, '&', self.const(sel_t, 1), self.nm('bit'), sel_t))
+                off = self.emit(ir.Binop(bit, '*', self.const(sel_t, size), self.nm('aoff'), sel_t))
+                q = self.emit(ir.Binop(p, '+', self.emit(ir.Cast(off, self.nm('aoffp'), ir.ptr)), self.nm('q'), ir.ptr))
+                x, y = self.get(env, t), self.get(env, t)
+                self.emit(ir.Store(self.get(env, t), q))            # both cells written (no unwritten reads)
+                r = rng.random()
+                if r < 0.5:
+                    self.emit(ir.Store(x, p))
+                    l = self.emit(ir.Load(q, self.nm('al'), t))
+                    self.emit(ir.Store(y, p))
+                elif r < 0.8:
+                    self.emit(ir.Store(x, p))
+                    self.emit(ir.Store(y, q))
+                    l = self.emit(ir.Load(p, self.nm('al'), t))
+                else:
+                    self.emit(ir.Store(x, q))
+                    self.emit(ir.Store(y, p))
+                    self.emit(ir.Store(x, q))
+                    l = self.emit(ir.Load(p, self.nm('al'), t))
+                env.setdefault(t, []).append(l)
+                self.observe(env, t)
+            else:
+                # same address, same width, other signedness
+                tt = [u for u in irgen.INT_TYPES if u.bits == t.bits and u.signed != t.signed][0]
+                self.emit(ir.Store(self.get(env, t), p))
+                l = self.emit(ir.Load(p, self.nm('pl'), tt))
+                env.setdefault(tt, []).append(l)
+                one = self.const(tt, 1)
+                env[tt].append(self.emit(ir.Binop(l, '+', one, self.nm('pu'), tt)))
+                self.observe(env, tt)
+                if rng.random() < 0.5:
+                    self.emit(ir.Store(self.get(env, t), p))
+                    self.emit(ir.Store(env[tt][-1], p))
+                    env.setdefault(t, []).append(self.emit(ir.Load(p, self.nm('pl'), t)))
+                    self.observe(env, t)
         elif kind in ('globcall', 'globwrite'):
             gs = [g for g in self.mg.gvars if g.amount >= t.bits // 8]
             if not gs:
